@@ -57,14 +57,15 @@ def gen_fields(rng):
     return [[n, rng.choice(WORDS + ["two\n lines"])] for n in names[:rng.randint(1, 3)]]
 
 
-def generate_case(rng_world, rng_swarm, rng_sched, profile):
+def generate_case(rng_world, rng_swarm, rng_sched, profile, tier="quick"):
     dup = profile == "C10" and rng_swarm.random() < 0.6
     doc = gen_doc(rng_world, dup=dup)
     if profile == "C05":
         w = {"set": rng_swarm.choice([3, 6]), "del": rng_swarm.choice([1, 2, 4]),
              "get": rng_swarm.choice([0, 1]), "gc": rng_swarm.choice([0, 1]),
              "drop_held": rng_swarm.choice([0, 1])}
-        nsteps = rng_swarm.choice([1, 2, 4, 8, 16, 25])
+        nsteps = rng_swarm.choice([1, 2, 4, 8, 16, 25] if tier == "quick" else
+                                  [1, 2, 4, 8, 16, 25, 50])
     else:
         w = {"set": rng_swarm.choice([1, 2]), "del": rng_swarm.choice([1, 2]),
              "get": rng_swarm.choice([0, 1]),
@@ -73,7 +74,8 @@ def generate_case(rng_world, rng_swarm, rng_sched, profile):
              "order_after": rng_swarm.choice([0, 2, 4]), "sort": rng_swarm.choice([0, 1, 2]),
              "append": rng_swarm.choice([0, 1, 2]), "insert": rng_swarm.choice([0, 1, 2]),
              "gc": rng_swarm.choice([0, 1]), "drop_held": rng_swarm.choice([0, 1])}
-        nsteps = rng_swarm.choice([1, 2, 4, 8, 16, 25])
+        nsteps = rng_swarm.choice([1, 2, 4, 8, 16, 25] if tier == "quick" else
+                                  [1, 2, 4, 8, 16, 25, 50])
     kinds = [k for k, v in w.items() for _ in range(v)] or ["set"]
     steps = []
     npar = len(doc.paras)
